@@ -22,7 +22,8 @@ EXC_KINDS = ("SerialException", "SerialTimeoutException", "PortNotOpenError", "O
 # (what pyserial back ends raise, plus RuntimeError, which the library's own except clauses
 # name among the serial I/O exceptions)
 FAULTS = Profile(write_exc=EXC_KINDS, read_exc=EXC_KINDS,
-                 latency=(0, 1, 26), content=("err", "nameerr", "wrong", "sibling", "cut", "longerr", "jsonish", "lonebrace"),
+                 latency=(0, 1, 26), content=("err", "nameerr", "wrong", "sibling", "cut", "longerr", "jsonish", "lonebrace",
+                          "banner"), prefix=("banner", "other"),
                  silent=True,
                  read_window=2)
 
@@ -114,7 +115,7 @@ def run_history(chooser, steps):
                 fired = [f for p in ports for f in p.faults][pre_faults:]
                 raised = [f for f in fired if f[1] in ("write_exc", "read_exc")]
                 # ... and so do a device error reply, an unexpected reply and a timeout
-                refused = [f for f in fired if f[1] in ("content", "silent") or
+                refused = [f for f in fired if f[1] in ("content", "silent", "prefix") or
                            (f[1] == "latency" and f[2] >= 26)]
                 sent = [w for p in ports for w in p.write_attempts][pre_writes:]
                 last = sent[-1].decode("ascii", "replace") if sent else ""
